@@ -58,9 +58,12 @@ func RightTrim(p parsley.Parser, wsMode WsMode) parser.Func {
 		tr := ctx.Reader().(*Reader)
 		res, cp, err := p.Parse(ctx, leftRecCtx, pos)
 		if err != nil {
-			errPos, _ := tr.SkipWhitespaces(err.Pos(), wsMode)
-			if errPos > err.Pos() {
-				err = parsley.NewError(errPos, err.Cause())
+			// a whitespace error is about the whitespaces at its own position, it must stay there
+			if !parsley.IsWhitespaceError(err) {
+				errPos, _ := tr.SkipWhitespaces(err.Pos(), wsMode)
+				if errPos > err.Pos() {
+					err = parsley.NewError(errPos, err.Cause())
+				}
 			}
 			return res, cp, err
 		}
